@@ -279,6 +279,8 @@ def valueDiags (s : RSchema) (vars : List RVarDef) : Nat → Ty → RVal → Lis
       | .lit => []
       | .list xs =>
         if !acceptsList ty kind then [.valueShape]
+        -- a list literal given to a (non-list) custom scalar is opaque, like an object literal
+        else if !ty.isList then xs.flatMap (opaqueVars vars k)
         else if kind.isInput then xs.flatMap (valueDiags s vars k (itemTy ty))
         else [.valueShape]
       | .obj kvs =>
